@@ -101,6 +101,7 @@ def _ancestors_of(n, stop):
 
 
 def run(ck):
+    _import_registry_rules(ck)
     ck.rule("R1", "the access of a mapped section/segment depends on the header's write flag", floor=2)
     ck.rule("R2", "an import slot receives the stub address of its own import", floor=1)
     ck.rule("R3", "section/segment bytes are mapped at the right address with zero padding", floor=2)
@@ -261,3 +262,30 @@ def run(ck):
     wr = any(isinstance(n, ast.For) and "all_data" in norm(n.iter) and any(isinstance(c, ast.Call) and dotted(c.func) == "vm.set_mem"
                                                                           for c in walk_local(n)) for n in walk_body(fn))
     ck.ob("R3", "vm_load_elf:zero-fill-then-write", zero and wr, em.where(fn), "pages must be zero filled and then receive every segment's bytes")
+
+
+class _Prefixed(object):
+    """the checker handle with every rule id prefixed (to run another property's rule set inside this one)"""
+    def __init__(self, ck, pre):
+        self._ck, self._pre = ck, pre
+
+    def rule(self, rid, *a, **k):
+        return self._ck.rule(self._pre + rid, *a, **k)
+
+    def ob(self, rid, *a, **k):
+        return self._ck.ob(self._pre + rid, *a, **k)
+
+    def undet(self, rid, *a, **k):
+        return self._ck.undet(self._pre + rid, *a, **k)
+
+    def __getattr__(self, name):
+        return getattr(self._ck, name)
+
+
+def _import_registry_rules(ck):
+    """"every resolved import slot points to a stub address that maps back to that imported function": the registry of stub addresses
+    (loader/utils.py: libimp) is the subject of C45; its whole rule set is run here as well under the ids I-R1 .. I-R6 (cursor bounded
+    and advancing, forward and reverse maps written together, a new key gets its address from the cursor only, tables filled under
+    the key they were probed with)."""
+    from rules import c45
+    c45.run(_Prefixed(ck, "I-"))
